@@ -182,12 +182,22 @@ func (s *Solver) Check(asserts []*Term, wantModel []*Term) (Result, []uint64) {
 	var vals []uint64
 	if res == Sat && len(wantModel) > 0 {
 		vals = make([]uint64, len(wantModel))
+		var q strings.Builder
+		nq := 0
+		for _, t := range wantModel {
+			if !t.IsConst() {
+				fmt.Fprintf(&q, "(get-value (%s))\n", t.ref())
+				nq++
+			}
+		}
+		if nq > 0 {
+			s.send(q.String())
+		}
 		for i, t := range wantModel {
 			if t.IsConst() {
 				vals[i] = t.Val
 				continue
 			}
-			s.send(fmt.Sprintf("(get-value (%s))\n", t.ref()))
 			v, ok := s.readValue()
 			if !ok {
 				s.Errors++
